@@ -10,7 +10,7 @@ CONSTANTS
   MaxPay = 1
   Cap = 2
   MaxNest = 1
-  Ops = {"CtxDeregister", "DropRef", "Dispatch", "CtxQuit", "SrcRegister", "SrcDeregister", "FdReady", "FdHup", "FdDrain", "FdReopen", "TmrFire", "ModPause", "ModResume", "ModStop", "Tell"}
+  Ops = {"CtxDeregister", "DropRef", "Dispatch", "DispatchIntr", "CtxQuit", "SrcRegister", "SrcDeregister", "FdReady", "FdHup", "FdDrain", "FdReopen", "TmrFire", "ModPause", "ModResume", "ModStop", "Tell"}
   CbOps = {"SetErrno", "FdDrain", "ModStop", "SrcDeregister"}
   EvalVals = {TRUE}
   Prios = {"N"}
